@@ -98,9 +98,9 @@ m = {
   },
   'engines': [
     {'name': 'E1-enumerate', 'path': 'harness/src/engine/enumerate.rs', 'serves_properties': sorted(P), 'kind_free_text': 'exhaustive product/sequence enumerators, parallel drivers'},
-    {'name': 'E2-explore', 'path': 'harness/src/engine/explore.rs', 'serves_properties': ['C03', 'C06'], 'kind_free_text': 'explicit-state BFS with canonical hashing; states rebuilt by re-execution on the real code'},
-    {'name': 'E3-sched', 'path': 'harness/src/engine/sched.rs', 'serves_properties': ['C06', 'C07', 'C08'], 'kind_free_text': 'controlled single-thread async scheduler with scripted sockets, quiescence and livelock detection'},
-    {'name': 'E4-mutate', 'path': 'harness/src/engine/mutate.rs', 'serves_properties': ['C01', 'C02', 'C04', 'C09', 'C10', 'C11'], 'kind_free_text': 'deviation operators on bytes / DER TLV trees / XML'},
+    {'name': 'E2-explore', 'path': 'harness/src/shared/explore.rs', 'serves_properties': ['C03', 'C06'], 'kind_free_text': 'explicit-state BFS with canonical hashing; states rebuilt by re-execution on the real code'},
+    {'name': 'E3-sched', 'path': 'harness/src/shared/rtr_sched.rs', 'serves_properties': ['C06', 'C07', 'C08'], 'kind_free_text': 'controlled single-thread async scheduler with scripted sockets, quiescence and livelock detection'},
+    {'name': 'E4-mutate', 'path': 'harness/src/shared/mutate.rs', 'serves_properties': ['C01', 'C02', 'C04', 'C09', 'C10', 'C11'], 'kind_free_text': 'deviation operators on bytes / DER TLV trees / XML'},
     {'name': 'E5-der', 'path': 'harness/src/engine/der.rs', 'serves_properties': ['C01', 'C02', 'C03', 'C04', 'C10', 'C14'], 'kind_free_text': 'independent minimal DER/CMS/X.509 encoder and TLV reader'},
   ],
   'checks': [],
